@@ -624,7 +624,8 @@ def _fault_matrix(case, gspec, nodes, tmpdir, stats, labels, ev):
             d._cache.close()
             if o3.status != out_u.status or o3.values != out_u.values:
                 raise Violation("c09.fault_not_a_miss", f"[{how} after a verified hit, same DiskCache instance] gave {o3.brief()}, uncached {out_u.brief()}", how=how, same_instance=True)
-            if any(t[0] == "get" and t[1] == key and t[2] for t in tr2):
+            first_set = next((i for i, t in enumerate(tr2) if t[0] == "set" and t[1] == key), len(tr2))
+            if any(t[0] == "get" and t[1] == key and t[2] for t in tr2[:first_set]):
                 raise Violation("c09.fault_served", f"[{how} after a verified hit, same DiskCache instance] the damaged entry was served as a hit", how=how, same_instance=True)
             stats["corrupted_requested"] += 1
     # crash between the two writes: drop the k-th backend write of a fresh population, for every k
@@ -688,7 +689,9 @@ def _rerun_and_check(gspec, nodes, vals, kw, work, out_u, key, node, how, dirkey
     requested = [t for t in trace if t[0] == "get" and (key is None or t[1] == key)]
     if key is not None and requested:
         stats["corrupted_requested"] += 1
-        if any(t[2] for t in requested if t[1] == key):
+        # a hit AFTER the key was rewritten in this run (another node with the same key) reads the repaired entry
+        first_set = next((i for i, t in enumerate(trace) if t[0] == "set" and t[1] == key), len(trace))
+        if any(t[2] for t in trace[:first_set] if t[0] == "get" and t[1] == key):
             raise Violation("c09.fault_served", f"[{how}] the damaged entry was served as a hit", how=how)
         if node is not None and ctx.count(ref.fid(node)) == 0:
             raise Violation("c09.fault_no_recompute", f"[{how}] node {node['name']} was not re-executed although its entry is damaged", how=how)
